@@ -551,9 +551,12 @@ fn gen_plist_line(r: &mut Rng) -> Vec<u8> {
         // arguments that END in blanks: kept exactly (only the blanks between command and argument are skipped)
         b" /opt/My Dir ", b" pkg-1.0 ", b" preserve ", b" x\t", b" x\r", b" root  ", b" a b \t", b" \x0c"];
     let blanks: [&[u8]; 7] = [b"", b" ", b"\t", b"  \t ", b"\r", b" \x0c", b"\x0b"];
-    match r.below(10) {
+    match r.below(12) {
         0 | 1 => r.pick(&blanks).to_vec(),
         2 | 3 | 4 => r.pick(&files).to_vec(),
+        // bare commands the queries of C15 turn on (runs of @ignore before a file, @cwd changes between files)
+        10 => b"@ignore".to_vec(),
+        11 => [&b"@ignore"[..], b"@cwd /p", b"@cwd /q/", b"@option preserve", b"@exec x", b"@unexec y"][r.below(6)].to_vec(),
         5 => {
             let mut v = r.pick(&blanks).to_vec();
             v.extend_from_slice(r.pick(&files));
